@@ -198,8 +198,10 @@ func (b *unboundBuilder) Parse(s string) (*Literal, error) {
 	if raw[0] != '"' {
 		return nil, fmt.Errorf("literal.Parse: text encoded literals must start with \", missing in %s", raw)
 	}
-	idx := strings.Index(raw, "\"^^type:")
-	if idx < 0 {
+	// The value itself may contain the type delimiter; the type is what
+	// follows its last occurrence.
+	idx := strings.LastIndex(raw, "\"^^type:")
+	if idx < 1 {
 		return nil, fmt.Errorf("literal.Parse: text encoded literals must have a type; missing in %s", raw)
 	}
 	v := raw[1:idx]
